@@ -220,9 +220,10 @@ func (x *headersObj) raw() interface{} {
 
 // ---- whole message
 type msgObj struct {
-	m     sipsp.PSIPMsg
-	flags uint8
-	last  []byte
+	m          sipsp.PSIPMsg
+	flags      uint8
+	last       []byte
+	hcap, ccap int
 }
 
 func (x *msgObj) call(buf []byte, offs int) (int, sipsp.ErrorHdr) {
@@ -338,7 +339,7 @@ func NewObj(c Cfg) Obj {
 		x.pv.Init(mkContacts(c.CCap))
 		return x
 	case "msg":
-		x := &msgObj{flags: uint8(c.Flags)}
+		x := &msgObj{flags: uint8(c.Flags), hcap: c.HCap, ccap: c.CCap}
 		x.m.Init(nil, mkHdrs(c.HCap), mkContacts(c.CCap))
 		return x
 	case "tokparam":
